@@ -15,6 +15,7 @@ class Ev:
     def __init__(self, kind, buf, lo, length, loops, guards, line, nid, what="", plan=None, value=None):
         self.kind, self.buf, self.lo, self.length, self.loops, self.guards = kind, buf, lo, length, loops, guards
         self.line, self.nid, self.what, self.plan, self.value = line, nid, what, plan, value
+        self.seq = None
 
     def __repr__(self):
         return "%s %s[%s,+%s)%s @%d" % (self.kind, self.buf, self.lo, self.length,
@@ -101,23 +102,25 @@ class Model:
                 A.require(len(bufsym) == 1, "%s: destination buffer of %s at line %d not identified (%s)" % (fn["name"], cal, c.line, dst))
                 lo = sp.expand(dst - bufsym[0])
                 val = c.args[0] if cal == "std::copy_n" else c.args[2]
-                ev.append(Ev("write", str(bufsym[0]), norm(lo), norm(ln), c.loops, c.guards, c.line, c.node["id"], cal, value=val))
+                ev.append(Ev("write", str(bufsym[0]), norm(lo), norm(ln), c.loops, c.guards, c.line, c.node["id"], cal, value=val)); ev[-1].seq = c.seq + 0.5
                 if cal == "std::copy_n":
-                    ev.append(Ev("read-src", str(c.args[0]), None, norm(ln), c.loops, c.guards, c.line, c.node["id"], "copy source", value=c.args[0]))
+                    ev.append(Ev("read-src", str(c.args[0]), None, norm(ln), c.loops, c.guards, c.line, c.node["id"], "copy source", value=c.args[0])); ev[-1].seq = c.seq + 0.25
             elif cal == "fft::fft_execute":
                 plan = A.this_field(c.arg_nodes[0])
                 A.require(plan is not None, "%s: fft_execute on a non-member plan" % fn["name"])
-                ev.append(Ev("execute", plan, None, None, c.loops, c.guards, c.line, c.node["id"], plan=plan))
+                ev.append(Ev("execute", plan, None, None, c.loops, c.guards, c.line, c.node["id"], plan=plan)); ev[-1].seq = c.seq
             elif cal.startswith("vfps::ElectricField::") and cal.split("::")[-1] in self.OPS:
-                ev.append(Ev("call", cal.split("::")[-1], None, None, c.loops, c.guards, c.line, c.node["id"]))
+                ev.append(Ev("call", cal.split("::")[-1], None, None, c.loops, c.guards, c.line, c.node["id"])); ev[-1].seq = c.seq
         for a in s.accesses:
             if a.idx is None or not a.base.startswith("_"):
                 continue
             if a.kind == "store":
-                ev.append(Ev("write", a.base, tuple(a.idx), sp.Integer(1), a.loops, a.guards, a.line, a.node["id"], a.op, value=a.value))
+                ev.append(Ev("write", a.base, tuple(a.idx), sp.Integer(1), a.loops, a.guards, a.line, a.node["id"], a.op, value=a.value)); ev[-1].seq = a.seq
             else:
-                ev.append(Ev("read", a.base, tuple(a.idx), sp.Integer(1), a.loops, a.guards, a.line, a.node["id"]))
-        ev.sort(key=lambda e: e.nid)
+                ev.append(Ev("read", a.base, tuple(a.idx), sp.Integer(1), a.loops, a.guards, a.line, a.node["id"])); ev[-1].seq = a.seq
+        # program order as the scanner met the events (also across helper functions it looked into); a store follows the reads of its
+        # own right-hand side
+        ev.sort(key=lambda e: (e.seq if e.seq is not None else 0))
         return ev, s
 
     def flat(self, op, _depth=0):
@@ -128,6 +131,7 @@ class Model:
             if e.kind == "call":
                 for x in self.flat(e.buf, _depth + 1):
                     y = Ev(x.kind, x.buf, x.lo, x.length, e.loops + x.loops, e.guards + x.guards, x.line, e.nid, x.what, x.plan, x.value)
+                    y.seq = x.seq
                     y.via = e.buf
                     out.append(y)
             else:
